@@ -279,14 +279,23 @@ def run(tier, seed):
     for e in e4:
         res.violation("model evaluation failed (coqc)", dict(kind="coqc-error", log=e, no_failing_input_found=True))
     res.traces_validated += len(tc) - len(f4)
+    # ---- whole runs of AdiabaticMD on harmonic surfaces through the assembled loop Model/MD.md_harm_run (no oracle data), and the
+    #      statements of C01_md_harmonic_* evaluated on the logged runs (shadow energy constant, N-independent bound on the energy error)
+    import pmd
+    mdbad = []
+    mdc, mdmeta = pmd.collect(res, rng, 20 if tier == "quick" else 400, mdbad)
+    f5, e5 = run_case_check("C01md", pmd.PRELUDE_M, "caseM", "chkM", mdc, per_file=100)
+    for e in e5:
+        res.violation("model evaluation failed (coqc)", dict(kind="coqc-error", log=e, no_failing_input_found=True))
+    res.traces_validated += len(mdc) - len(f5)
     # ---- trajectory level: logged total energy drift is O(dt^2) (supporting oracle; the theorem part is partial)
     drift_bad = energy_drift_probe(res, rng, tier)
-    bad = hbad + vbad + drift_bad
-    corr = [hmeta[i] for i in failing[:5]] + [vmeta[i] for i in f2[:5]] + [dict(ke_case=vmeta[i]) for i in f3[:5]] + [dict(full_step=tmeta[i]) for i in f4[:5]]
+    bad = hbad + vbad + drift_bad + mdbad
+    corr = [hmeta[i] for i in failing[:5]] + [vmeta[i] for i in f2[:5]] + [dict(ke_case=vmeta[i]) for i in f3[:5]] + [dict(full_step=tmeta[i]) for i in f4[:5]] + [dict(md_run=mdmeta[i]) for i in f5[:5]]
     if bad:
         res.violation("implementation violates: " + bad[0]["failed"], dict(kind="oracle", failing_inputs=bad[:5], correspondence_failures=corr))
     elif corr:
-        only_full = bool(f4) and not (failing or f2 or f3)
+        only_full = bool(f4) and not (failing or f2 or f3 or f5)
         res.violation("loop body of TrajectorySH.simulate differs from Model/Traj.step (Run/RTraj.chkT): the pieces are wired in a different order or with different arguments; C01_full_step_hop_conserves_energy no longer covers the code"
                       if only_full else "implementation differs from Model/Hop.v (hop/Verlet theorems no longer cover the code)",
                       dict(kind="correspondence", correspondence="Run/RTraj.chkT: Model/Traj.step vs advance_position; advance_velocity; propagate_electronics; surface_hopping of TrajectorySH.simulate"
